@@ -386,6 +386,8 @@ class XTyper:
             if q in ("networkx.set_node_attributes",):
                 return ("Const", None)
             if q == "networkx.Graph":
+                if args and args[0][0] == "Graph":
+                    return args[0]          # nx.Graph(m): a copy with the same nodes in the same listing order, like m.copy()
                 return ("Graph", self.fresh("new"))
             if q == "networkx.convert_node_labels_to_integers":
                 return ("Graph", self.fresh("int"))
@@ -411,6 +413,11 @@ class XTyper:
                     return ("Pairs", b[1], b[2], b[3], b[4])
                 if len(args) == 2 and args[0][0] == "Seq" and args[1][0] == "Seq":
                     a, b = args
+                    # zip(xs, range(len(xs))) numbers xs by its own positions, like enumerate(xs) the other way round
+                    if b[1] == "POS" and b[2] == "POS" and b[3] and b[4] is not None and b[4] == a[4] and a[1] != "POS":
+                        return ("Pairs", a[2], a[1], a[3], a[4])
+                    if a[1] == "POS" and a[2] == "POS" and a[3] and a[4] is not None and a[4] == b[4] and b[1] != "POS":
+                        return ("Pairs", b[1], b[2], b[3], b[4])
                     if a[1] != b[1] and "POS" not in (a[1], b[1]):
                         if self.strict:
                             raise XViolation(e, f"zip pairs a sequence indexed by {fmt_space(a[1])} with one indexed by {fmt_space(b[1])}")
@@ -476,6 +483,8 @@ class XTyper:
                 if col is None and self.strict:
                     raise XViolation(e, "canonical_permutation is called without colours: atoms of different element / isotope / radical state may be exchanged")
                 ct = self.ev(fi, col, env) if col is not None else None
+                if self.strict and ct is not None and ct[0] == "Unknown":
+                    raise AnalysisError(f"R-BLISS: what is passed as `color` ({short(col, 50)}) is built in a way the index typing does not read ({ct[1]})")
                 if self.strict and not (ct[0] == "Seq" and ct[1] == (recv[2], recv[1]) and ct[2] == "COL"):
                     raise XViolation(e, f"colour vector has type {fmt(ct)}; needs a per-vertex sequence of partition classes of the same graph, in vertex order")
                 if self.conv is None:
@@ -487,6 +496,8 @@ class XTyper:
                 p = args[0] if args else U("no arg")
                 if p[0] == "Perm?" or (p[0] == "Seq" and len(p) == 6 and p[5] == "perm"):
                     return ("IGraph", recv[1], "CAN")     # igraph's own contract in every version
+                if p[0] == "Unknown":
+                    raise AnalysisError(f"R-BLISS: what is passed to permute_vertices is built in a way the index typing does not read ({p[1]})")
                 raise XViolation(e, f"permute_vertices receives {fmt(p)}, not the vector returned by canonical_permutation of the same graph")
             if recv[0] == "Graph":
                 if f.attr == "edges":
